@@ -131,6 +131,16 @@ pub fn run(rest: &str) -> String {
                 Err(e) => format!("Err {}", de_err(&e)),
             }
         }
+        "decm" => {
+            // decode under the counting allocator: peak live bytes above entry level, largest single request
+            let bytes = t.bytes();
+            let mut c = Cursor::new(bytes);
+            let (r, peak, largest) = crate::measure(|| rml_amf0::deserialize(&mut c).map(|ws| show_values(&ws, true)));
+            match r {
+                Ok(ws) => format!("Ok {} | peak={} largest={}", ws, peak, largest),
+                Err(e) => format!("Err {} | peak={} largest={}", de_err(&e), peak, largest),
+            }
+        }
         "dect" => {
             let k = t.u64() as usize;
             let bytes = t.bytes();
